@@ -178,6 +178,9 @@ func loadDeb(archive *Ar) (*Deb, error) {
 		if err != nil {
 			return nil, err
 		}
+		if _, dup := contents[member.Name]; dup {
+			return nil, fmt.Errorf("Archive contains more than one member '%s'", member.Name)
+		}
 		contents[member.Name] = member
 	}
 	member, ok := contents["debian-binary"]
